@@ -635,3 +635,15 @@ Definition mk_world (filters : list (list nat * list bool * nat)) (levels : list
      w_enabled := fun f cs => nth cs (snd (fst (nth f filters ([], [], 0)))) false;
      w_hint := fun f => snd (nth f filters ([], [], 0));
      w_level := fun cs => nth cs levels 0 |}.
+
+(** decidable form of the property's side condition on a table-defined world (checked by the driver, with the kernel,
+    for every world it generates; [Sched_World.mk_world_wf] proves it implies [WFworld]) *)
+Definition wf_rowb (levels : list nat) (row : list nat * list bool * nat) : bool :=
+  let '(ints, ens, h) := row in
+  forallb (fun cs =>
+             let i := nth cs ints 0 in
+             let e := nth cs ens false in
+             (match i with 0 => negb e | 1 => true | _ => e end) && ((i =? 0) || (nth cs levels 0 <=? h)))
+          (seq 0 (Nat.max (length ints) (Nat.max (length ens) (length levels)))).
+Definition wf_tableb (filters : list (list nat * list bool * nat)) (levels : list nat) : bool :=
+  forallb (wf_rowb levels) filters.
